@@ -4,6 +4,8 @@
    Gallina model (see DESIGN.md: partial clause). *)
 From PV Require Import Bytes Result Base64 Base64Proofs Text TextProofs Oracle Local Public LocalProofs PublicProofs
   Paserk PaserkProofs Keys KeysProofs NoPanic PanicCover PanicCoverProofs.
+From PV Require Import AuthOrder GuardRules.
+From PV.Gen Require Import Guards.
 From PV.Gen Require Import PanicSites.
 Local Open Scope string_scope.
 Local Open Scope list_scope.
@@ -67,6 +69,35 @@ Theorem C04_only_dangerous_seal_is_out_of_scope :
   forallb (fun p => String.eqb (snd p) "dangerous_seal_with_nonce") out_of_scope_sites = true.
 Proof. exact out_of_scope_is_dangerous_only. Qed.
 
+(* public-token unseal of all six backends *)
+Theorem C04_public_unseal_no_panic : forall O (P : pparams),
+  In P [v1_pparams O; v2_pparams O; v3_pparams O; lc_pparams O; v4_pparams O; na_pparams O] ->
+  forall pk enc p f a, is_panic (pg_unseal P pk enc p f a) = false.
+Proof. intros O P HP pk enc p f a. exact (pg_unseal_no_panic P pk enc p f a (pparams_check_no_panic O P HP)). Qed.
+
+(* ---- the four `fn unseal` that split their input with PANICKING operations after a length guard.  Their
+        mirrors contain the Panic branches (Rs.v), so these are theorems about the guards, and the guard and
+        split constants are those of the Rust source: Gen/Guards.v is regenerated from it on every run ---- *)
+Theorem C04_awslc_local_unseal_no_panic : forall O key enc p f a, is_panic (lc_local_unseal O key enc p f a) = false.
+Proof. exact lc_local_unseal_no_panic. Qed.
+Theorem C04_awslc_public_unseal_no_panic : forall O pk enc p f a, is_panic (lc_public_unseal O pk enc p f a) = false.
+Proof. exact lc_public_unseal_no_panic. Qed.
+Theorem C04_v4_public_unseal_no_panic : forall O pk enc p f a, is_panic (v4_public_unseal O pk enc p f a) = false.
+Proof. exact v4_public_unseal_no_panic. Qed.
+Theorem C04_v2_public_unseal_no_panic : forall O pk enc p f a, is_panic (v2_public_unseal O pk enc p f a) = false.
+Proof. exact v2_public_unseal_no_panic. Qed.
+Theorem C04_guards_are_the_sources : gen_guards = model_guards.
+Proof. exact guards_tied. Qed.
+Theorem C04_guards_cover_every_split : forallb (fun r => ops_safe 0 None (snd r)) gen_guards = true.
+Proof. exact guards_sufficient. Qed.
+
+Print Assumptions C04_awslc_local_unseal_no_panic.
+Print Assumptions C04_awslc_public_unseal_no_panic.
+Print Assumptions C04_v4_public_unseal_no_panic.
+Print Assumptions C04_v2_public_unseal_no_panic.
+Print Assumptions C04_guards_are_the_sources.
+Print Assumptions C04_guards_cover_every_split.
+Print Assumptions C04_public_unseal_no_panic.
 Print Assumptions C04_paserk_parse_no_panic.
 Print Assumptions C04_keyid_parse_no_panic.
 Print Assumptions C04_token_parse_no_panic.
